@@ -14,14 +14,16 @@ CALLEES = {'save_point', 'change_point', 'add_new_point', 'add_new_sample', 'swa
            'remove_scaling', 'apply_scaling', 'gradient_Fu', 'nsamples', 'ParameterList', 'DiagnosticInfo', 'trsbox', 'd_within_bounds',
            'ctrsbox_sfista', 'ctrsbox_pgd', 'ctrsbox_geometry', 'trsbox_geometry', 'pbox', 'pball', 'copy', 'astype', 'seed', 'append', 'allclose'}
 TARGET_ATTRS = {'nf', 'nx', 'delta', 'rho', 'rhoend', 'rhobeg', 'maxfun', 'kopt', 'eval_num', 'nsamples', 'objsave', 'xsave',
-                'last_successful_iter', 'last_run_fixed_rho', 'total_unsuccessful_restarts', 'factorisation_current'}
+                'last_successful_iter', 'last_run_fixed_rho', 'total_unsuccessful_restarts', 'factorisation_current',
+                'rsave', 'points', 'fval_v', 'objval', 'jacsave', 'jacsave_eval_nums', 'nsamples_save', 'eval_num_save', 'model_jac', 'model_jac_eval_nums',
+                'model_const', 'xbase', 'sl', 'su'}
 TARGET_NAMES = {'nruns_so_far', 'nf', 'nx', 'rhoend', 'rhobeg', 'exit_info', 'objfun', 'objfun_orig', 'xl_orig', 'xu_orig', 'xl', 'xu', 'x0',
                 'number_of_samples', 'num_samples_run', 'rvec_list', 'x', 'xnew', 'current_iter', 'nruns', 'maxfun', 'npt', 'user_params',
                 'scaling_changes', 'projections', 'params', 'xmin', 'rmin', 'objmin', 'jacmin', 'xmin_eval_num', 'jacmin_eval_nums',
                 'last_successful_run', 'total_unsuccessful_restarts', 'exit_flag', 'exit_msg', 'results', 'nsamples_min',
                 'rvec', 'obj', 'nsamples', 'x_eval_num', 'jac_eval_nums', 'xmin2', 'rmin2', 'objmin2', 'jacmin2', 'nsamples2',
                 'xmin_eval_num2', 'jacmin_eval_nums2', 'diagnostic_info', 'r0_avg', 'obj0_avg', 'nx_so_far', 'nf_so_far', 'x0_eval_num',
-                'xlb', 'xub', 'xp', 'bproj'}
+                'xlb', 'xub', 'xp', 'bproj', 'xabs'}
 COMMITS = {'save_point', 'change_point', 'add_new_point'}
 FILES = ('util', 'model', 'controller', 'solver', 'trust_region', 'params', 'diagnostic_info')
 
